@@ -68,10 +68,13 @@ func runOne(id string, cs stCase) (status string, detail string) {
 	}
 	defer os.RemoveAll(scratch)
 	repo := filepath.Join(scratch, "repo")
-	if out, err := exec.Command("cp", "-a", repoRoot, repo).CombinedOutput(); err != nil {
-		return "error", "copy: " + string(out)
+	// working-tree copy without .git (worktree metadata may change underneath a plain cp)
+	if out, err := exec.Command("rsync", "-a", "--exclude=.git", repoRoot+"/", repo+"/").CombinedOutput(); err != nil {
+		if out2, err2 := exec.Command("cp", "-a", repoRoot, repo).CombinedOutput(); err2 != nil {
+			return "error", "copy: " + string(out) + string(out2)
+		}
+		_ = os.RemoveAll(filepath.Join(repo, ".git"))
 	}
-	_ = os.RemoveAll(filepath.Join(repo, ".git"))
 	ap := exec.Command("git", "apply", "--whitespace=nowarn", cs.patch)
 	ap.Dir = repo
 	if out, err := ap.CombinedOutput(); err != nil {
